@@ -500,6 +500,13 @@ func protoVariants(r *rng, mi int, m *pmsg, maxTrunc, budget int) []c06input {
 		out = append(out, c06input{replaceVarint(p, uint64(len(m.buf)-p.off)), "len", mi})
 		out = append(out, c06input{replaceVarint(p, uint64(r.intn(8))), "len", mi})
 	}
+	for _, p := range pick('M') {
+		for _, v := range bigVarints {
+			out = append(out, c06input{replaceVarint(p, v), "lennest", mi})
+		}
+		out = append(out, c06input{replaceVarint(p, uint64(len(m.buf)-p.off)), "lennest", mi})
+		out = append(out, c06input{replaceVarint(p, uint64(r.intn(8))), "lennest", mi})
+	}
 	for _, p := range pick('V') {
 		// over-long / unterminated varints
 		c := append([]byte(nil), m.buf[:p.off]...)
